@@ -84,6 +84,12 @@ def run(ctx):
                                    "id": human(b.hash())})
         if b.serialize() != raw:
             res.violations.append({"kind": "recorded block does not re-encode to its bytes", "file": fn})
+    # the node has validated (and mined on) other chains in this process before: anything the implementation keeps
+    # process-wide (caches keyed by height, parent, ...) has seen other blocks at the same heights
+    chain.patch(horizon=-1)
+    warm = chain.Tree(rng, chain.Keys(rng, 3))
+    warm.grow(8, fork_prob=0.4)
+    res.count("other_chain_validated_first", len(warm.blocks))
     # full validation, horizon disabled, real scrypt
     lines = chain.patch(horizon=-1, scrypt=False)
     real = CoinState.empty().add_block_no_validation(g)
